@@ -297,6 +297,8 @@ func (e *Engine) checkTupleToSubjectSet(
 			err                error
 		)
 		g := checkgroup.New(ctx)
+		// Always report a result, also when listing the tuples fails.
+		defer func() { resultCh <- g.Result() }()
 		for nextPage = "x"; nextPage != "" && !g.Done(); prevPage = nextPage {
 			tuples, nextPage, err = e.d.RelationTupleManager().GetRelationTuples(
 				ctx,
@@ -323,6 +325,5 @@ func (e *Engine) checkTupleToSubjectSet(
 				}
 			}
 		}
-		resultCh <- g.Result()
 	}
 }
